@@ -63,6 +63,16 @@ KM = {
     'fst': lambda i: i[0],
 }
 
+# split predicates are only ever compared with != against the previous value: symbolic values fork once (equal / different) per item,
+# which is far cheaper than a cascade; they still build a fresh, never identical object per call.
+PRED = dict(KM)
+PRED.update({
+    'tup2': lambda i: (i % 2, 'g'),
+    'tup3': lambda i: (i % 3,),
+    'mod2': lambda i: i % 2,
+    'mod3': lambda i: i % 3,
+})
+
 # name -> (real factory, ref factory, dual?)   int -> int unless noted
 LEAVES = {
     'map_inc': (lambda: [rs.ops.map(_inc)], lambda: [R.Map(_inc)], True),
@@ -150,7 +160,7 @@ def build1(d, tap=None, path='p'):
         return [rs.data.roll(d[1], d[2], a)], [R.Roll(d[1], d[2], b)]
     if k == 'split':
         a, b = build(d[2], tap, path + 's')
-        return [rs.data.split(KM[d[1]], a)], [R.Split(KM[d[1]], b)]
+        return [rs.data.split(PRED[d[1]], a)], [R.Split(PRED[d[1]], b)]
     if k == 'tsplit':
         _, act, inact, closing, include, inner = d
         a, b = build(inner, tap, path + 't')
@@ -314,8 +324,10 @@ def branching(desc):
         elif k == 'tee':
             for br in d[2]:
                 b *= branching(br)
-        elif k in ('group', 'split'):
+        elif k == 'group':
             b *= KBRANCH.get(d[1], 2) * branching(d[-1])
+        elif k == 'split':
+            b *= (7 if d[1] == 'div3' else 2) * branching(d[-1])
         elif k == 'roll':
             inner = branching(d[-1])
             b *= inner ** (-(-d[1] // d[2]))
